@@ -223,6 +223,10 @@ func (r *Reader) NextFrame() (hdr ws.Header, err error) {
 				// Ensure that src is empty.
 				_, err = io.Copy(ioutil.Discard, &r.raw)
 			}
+			if err == nil && r.raw.N != 0 {
+				// The stream has ended inside the control frame.
+				err = io.ErrUnexpectedEOF
+			}
 			return hdr, err
 		}
 	} else {
